@@ -39,8 +39,8 @@ def shapes_for(tier, seed):
 def plan(tier, seed):
     shapes = shapes_for(tier, seed)
     shapes.sort(key=lambda s: -O.prod(s))
-    reps = 2 if tier == "quick" else 8
-    return [{"name": "s%d" % i, "i": i, "shapes": shapes[i::NSHARD], "reps": reps, "c": 4 if tier == "quick" else 90} for i in range(NSHARD)]
+    reps = 2 if tier == "quick" else 48
+    return [{"name": "s%d" % i, "i": i, "shapes": shapes[i::NSHARD], "reps": reps, "c": 4 if tier == "quick" else 300} for i in range(NSHARD)]
 
 
 def same(a_hex, expected):
